@@ -80,7 +80,7 @@ place!(place_z8, Z8, 0, 32, 17, 16, blocks);
 place!(place_opt_vec_u16, Option<Vec<u16>>, 2, 32, 17, 16, blocks);
 // @h place_string props=C12,C03 tier=quick kind=bounded bound="len<=2 ASCII; residues 0..15" vars="v:String (byte-aligned data only), base residue k<16" fns="impls/string.rs"
 place!(place_string, String, 2, 32, 17, 16, bytes);
-// @h place_arr_u64 props=C12,C03 tier=thorough kind=complete vars="v:[u64;2], base residue k<16" fns="impls/array.rs"
+// @h place_arr_u64 props=C12,C03 tier=quick kind=complete vars="v:[u64;2], base residue k<16" fns="impls/array.rs"
 place!(place_arr_u64, [u64; 2], 0, 32, 17, 16, blocks);
 // @h place_z32_128 props=C12,C03,C05 tier=thorough kind=complete vars="v:Z32 (unit 16), base residue k<128" fns="deser/slice_with_pos.rs:align"
 place!(place_z32_128, Z32, 0, 64, 17, 128, blocks);
